@@ -259,6 +259,43 @@ def run(facts, res):
                                     res.violation("W4", "%s|threshold:%s%d" % (b.path, op, k),
                                                   "%s compares leafs.len() with `%s %d`; an object is in conflict iff it has more than 1 live leaf" % (b.path, op, k), b.loc(st.line))
     res.floor("W4", "leaf-count comparisons", n4, 1)
+    # in_conflict reports exactly the objects with more than one live leaf: its selecting closure says nothing else
+    ic = facts.body("melda::Melda::in_conflict")
+    if ic is not None:
+        from ..conds import closure_result_lits
+        from ..common import iter_chain
+        chain = iter_chain(du_of(ic).local_term(0, 30))
+        sel = [c for c in chain if callee_name(c) in ("filter", "filter_map", "take_while", "skip_while", "take", "skip", "step_by")]
+        ok_ic = False
+        extra = []
+        for c in sel:
+            if callee_name(c) != "filter":
+                extra.append(callee_name(c))
+                continue
+            cl = _top_closure(c[2][1]) if len(c[2]) > 1 else None
+            cb_ = facts.body(cl[1]) if cl is not None else None
+            ls_ = closure_result_lits(cb_, facts, True) if cb_ is not None else []
+            for l in ls_:
+                if l.kind == "cmp" and any(x[0] == "call" and callee_name(x) == "len" for x in walk(l.term)) and \
+                        any(x[0] == "call" and callee_name(x) == "get_leafs" for x in walk(l.term)):
+                    ok_ic = True
+                elif l.kind == "variant" and l.variants and l.variants <= {"Ok", "Some"}:
+                    continue
+                else:
+                    extra.append(repr(l))
+        # plain-loop form: every insertion into the result is dominated by the leaf-count literal only
+        if not sel:
+            for bi, t in ic.calls():
+                if t.callee is not None and t.callee.name in ("insert", "push") :
+                    ls_ = lits_of(ic, bi, facts)
+                    if any(l.kind == "cmp" and any(x[0] == "call" and callee_name(x) == "get_leafs" for x in walk(l.term)) for l in ls_):
+                        ok_ic = True
+                    extra += [repr(l) for l in ls_ if l.kind == "call" and callee_name(l.term) in ("is_deleted", "is_resolved", "is_empty", "contains", "eq", "ne")]
+        res.instance("W4", "in_conflict selects by `more than one live leaf` only: %s (other conditions: %s)" % (ok_ic, extra or "none"), ic.loc())
+        if not ok_ic or extra:
+            res.violation("W4", "in_conflict|selection-not-leaf-count-only",
+                          "in_conflict does not report exactly the objects with more than one live leaf (leaf-count test found: %s, further conditions: %s): "
+                          "in_conflict and get_conflicting would disagree" % (ok_ic, extra[:2]), ic.loc())
     gc = facts.body("melda::Melda::get_conflicting")
     if gc is not None:
         ok = False
